@@ -1416,7 +1416,9 @@ func supervise() {
 		os.Exit(3)
 	}
 	var doc interface{}
-	json.Unmarshal(b, &doc)
+	dec := json.NewDecoder(bytes.NewReader(b))
+	dec.UseNumber() // 64-bit seeds must survive the round trip into the replay file
+	dec.Decode(&doc)
 	msg := errb.String()
 	if i := strings.Index(msg, "\n\n"); i > 0 {
 		msg = msg[:i]
@@ -1575,9 +1577,9 @@ func main() {
 		"callers free only pointers returned by Malloc and not yet freed, do not write outside [0,Len) and do not modify the slice header",
 		"DefragAllImproved runs while no Malloc/Free is in progress (as its comment requires)",
 		"every Malloc/Free body runs under the per-class mutex: one model step per call covers all interleavings of calls; memory-level races are outside the model (the concurrent stream explores them on the real code only)",
-		"the doubly linked free lists are abstracted to lists in the model; pointer-chain consistency is checked on the real allocator by walking next/prev in both directions",
+		"pointer layer: the model keeps every link field (node.prev/next/prevInPage/nextInPage, header.prev/next/freeList, lists/firstPage/lastPage) next to the abstract lists; Props.C20.rep_inv proves they spell the lists, the harness compares every field reachable through pointers with the real allocator's memory (VerifLinks) and also walks next/prev in both directions",
 		"sort.Slice is not stable: the model takes the evacuation order observed on the real allocator and checks it against the selection rule (sorted by used, stop when recordsToFree >= target); theorems hold for every legal order",
 	}
 	r.Finish("corpus: every size-class boundary (slot-1, slot, slot+1 for all classes of the generated table), the private-mapping boundaries and 200 KiB; page-edge traces; random mixed traces; single-class traces; defragmentation scenarios at 5 fragmentation patterns (uniform, whole pages emptied, equal use on every page, at the 12-page threshold, everything freed) each followed by an aftermath and a second pass; 2..16-goroutine phases with barrier checks and defrag. distinct = distinct traces (name, length, middle op); every trace reaches Malloc and Free on the real allocator",
-		"single-threaded traces are compared step by step with the Lean model (address, Len/Cap, counters, complete per-class state incl. free-list order, relocate sequence); independently of the model the property predicate is evaluated on the real allocator: fill pattern on free/relocate/end, overlap registry over all live slot ranges, Len/Cap/Data, Allocs = live, slot-by-slot 'live xor on free list', relocate exactly once")
+		"single-threaded traces are compared step by step with the Lean model (address, Len/Cap, counters, complete per-class state incl. free-list order, every link field of the pointer layer, relocate sequence); independently of the model the property predicate is evaluated on the real allocator: fill pattern on free/relocate/end, overlap registry over all live slot ranges, Len/Cap/Data, Allocs = live, slot-by-slot 'live xor on free list', relocate exactly once")
 }
